@@ -89,3 +89,15 @@ Theorem C12_table_rows : forall ibaq cutoff_of ns groups rows exps out,
           (filter (fun ig => nonempty (attached s rows (fst ig))) (combine (seq 0 (length groups)) groups)) out.
 Proof. exact quantify_rows. Qed.
 Print Assumptions C12_table_rows.
+
+(* TMT reporter columns (columns/tmt.py): experiment i, reporter column k holds the sum of that column over the rows of the group
+   that count (identified at the cutoff, or match-between-runs riding along) in that experiment; rows are the retained ones *)
+Theorem C12_tmt_cell : forall cut exps width l i k, i < length exps -> k < width ->
+  nth (i * width + k) (tmt_intensities cut exps width l) (0#1)%Q =
+  qsum (map (fun r => nth k (p_tmt r) (0#1)%Q) (filter (fun r => counts cut r && in_exp (nth i exps []) r) l)).
+Proof. exact tmt_cell_spec. Qed.
+Print Assumptions C12_tmt_cell.
+
+Theorem C12_tmt_width : forall cut exps width l, length (tmt_intensities cut exps width l) = length exps * width.
+Proof. exact tmt_length. Qed.
+Print Assumptions C12_tmt_width.
